@@ -277,6 +277,25 @@ func (c *Ctx) Evals(n int64) {
 	c.w.mu.Unlock()
 }
 
+// Fork returns a context for a goroutine that runs its own case concurrently
+// with others of the same block: it shares the worker (counters, violation
+// log, progress) but has its own case index and PRNG. The case is counted as
+// begun. It returns nil if the case must be skipped (replay of another case).
+func (c *Ctx) Fork(index int) *Ctx {
+	if c.w.ReplayIndex >= 0 && index != c.w.ReplayIndex {
+		return nil
+	}
+	cp := *c
+	cp.index = index
+	cp.rng = nil
+	cp.inCase = true
+	c.w.cases.Add(1)
+	c.w.mu.Lock()
+	c.w.evals++
+	c.w.mu.Unlock()
+	return &cp
+}
+
 // Index returns the index of the current case.
 func (c *Ctx) Index() int { return c.index }
 
